@@ -270,7 +270,7 @@ func readResp(br *bufio.Reader, c net.Conn, method string) (*gotResp, error) {
 func (e *labEnv) runHTTPConn(hc httpConn, epoch, ci int) *httpClientResult {
 	res := &httpClientResult{}
 	addr, _ := e.httpTarget(hc.Svc)
-	c, err := net.DialTimeout("tcp", addr, 5*time.Second)
+	c, err := dialTCPFrom(ci, addr)
 	if err != nil {
 		res.err = fmt.Errorf("infra: dial proxy %s: %v", addr, err)
 		return res
@@ -374,24 +374,13 @@ func checkHTTPOnce(t testing.TB, c httpCase) error {
 	if e.decoy.count() != d0 {
 		return fmt.Errorf("the decoy address %s (named only in the clients' Host headers) was contacted: %s", e.decoy.host(), e.decoy.last())
 	}
-	clientPorts := map[string]bool{}
-	for _, r := range results {
-		if r.local != nil {
-			clientPorts[r.local.String()] = true
-		}
-	}
 	var firstTimeout error
 	for ci, hc := range c.Conns {
 		r := results[ci]
 		_, be := e.httpTarget(hc.Svc)
 		seen, order, stray, remotes := be.snapshot()
-		for _, ra := range remotes {
-			if clientPorts[ra] {
-				return fmt.Errorf("backend saw a connection from the client's own address %s", ra)
-			}
-			if !strings.HasPrefix(ra, "127.0.0.1:") {
-				return fmt.Errorf("backend saw a connection from %s, not from the proxy host", ra)
-			}
+		if err := fromProxyHost(remotes); err != nil {
+			return err
 		}
 		// what the backend parsed, request by request
 		var wantOrder []string
@@ -735,7 +724,7 @@ func TestHTTP(t *testing.T) {
 		return
 	}
 	getEnv(t)
-	r.Rapid(t, "TestHTTP", r.Pick(600, 5000), func(rt *rapid.T) {
+	r.Rapid(t, "TestHTTP", r.Pick(1200, 8000), func(rt *rapid.T) {
 		c := genHTTPCase(rt)
 		c = excludeKnownHTTP(r, c)
 		fp := ""
